@@ -119,6 +119,14 @@ def finalize_rules(chk, S, r1, r3):
     o = call(it, method(it, ms, "rescale_cholesky"), A("factor"))
     ok = isinstance(o, Rec) and o.fields["marginal"] is T.mk("mcall", (ms.fields["marginal"], "rescale_cholesky", A("factor"))) and o.fields["conditional"] is T.mk("mcall", (ms.fields["conditional"], "rescale_noise", A("factor"))) and o.fields["reverse"] is True
     r3.require(ok, "MarkovSequence.rescale_cholesky", "marginal and conditional rescaled with the same factor", f"{T.show(o, 3)}", EST)
+    # ... and the direction of the sequence is the sequence's own: a forward sequence (a prior on a grid) stays a forward sequence
+    for rev in (True, False):
+        it_r = S.interp()
+        ms_r = rec_of_atoms(it_r, EST + ".MarkovSequence", "msr", {"reverse": rev})
+        o_r = call(it_r, method(it_r, ms_r, "rescale_cholesky"), A("factor"))
+        S.absorb(it_r)
+        r3.require(isinstance(o_r, Rec) and o_r.fields.get("reverse") is rev, f"MarkovSequence.rescale_cholesky keeps the direction (reverse={rev})", f"reverse = {rev}",
+                   f"a sequence with reverse={rev} comes back with reverse={o_r.fields.get('reverse') if isinstance(o_r, Rec) else o_r}: its samples and marginals are then evaluated in the wrong direction", EST, {"reverse": rev})
     S.absorb(it)
 
 
